@@ -1,7 +1,8 @@
 /-
 C13 — Collection, set and sequence functions match reference semantics.
 
-Property theorems only; helper lemmas live in `CtyModel/Lemmas/Stdlib*.lean`.
+Property theorems only; helper lemmas live in `CtyModel/Lemmas/Stdlib*.lean` and
+`CtyModel/Lemmas/d13*.lean`.
 
 Every statement is about the `Type` / `Impl` callbacks of `CtyModel.Stdlib`
 (`Stdlib/Collection.lean`, `Sequence.lean`, `SetFns.lean`) — transliterations of
@@ -21,10 +22,32 @@ ordinary error" (never a panic).  `e.equals e = true` is reflexivity of
 `Type.Equals` on the element type, which holds for every well-formed type
 (C07 `equals_refl`).  `(vs.length : Int) ≤ maxInt`: a Go slice length is an
 `int`.  `Env` carries what the callbacks obtain from package `convert` and from
-the set hash function; the theorems hold for every `Env`.
+the set hash function; the theorems hold for every `Env` unless they name
+`modelEnv` (Stdlib/d13Env.lean): the environment in which unify, convert, hash and
+the hash-byte order are the Lean models of those packages.  The correspondence
+runs every call twice — `std.call` with oracle columns from the real library,
+`std.callm` under `modelEnv` with no oracle — so a `modelEnv` theorem speaks about
+an instance that is diffed against /repo.
+
+Deepening pass (lemmas in `Lemmas/d13*.lean`): set algebra, `sethaselement` and
+`setproduct` of sets are stated on a CARRIER — members admitted by
+`Payload.member ety ns` (well-formed for the element type, wholly known, mark-free,
+numbers from a list `ns` that is `HashCoherentNums`, a decidable check) whose hash
+the environment answers as the hash model does (`Env.hashAgrees`) — on which
+`setRules` is PROVED lawful (`setrules_lawful_on_members`); `Payload.plainMember e p`
+is the same without the condition on numbers (enough where no hash is involved:
+`distinct`, `contains`).  `NoPanic r` reads "`r` is not a Go panic".
 -/
 import CtyModel.Lemmas.StdlibCall
 import CtyModel.Lemmas.Asc
+import CtyModel.Lemmas.d13Model
+import CtyModel.Lemmas.d13Seq
+import CtyModel.Lemmas.d13Index
+import CtyModel.Lemmas.d13Map
+import CtyModel.Lemmas.d13Misc
+import CtyModel.Lemmas.d13Product
+import CtyModel.Lemmas.d13NoPanic
+import CtyModel.Lemmas.d13SetN
 namespace CtyModel
 namespace C13
 open Stdlib Value
@@ -177,15 +200,23 @@ theorem reverse_type (e : Ty) (ts : List Ty) (p : Payload) :
 
 /-- **distinct** keeps exactly the first occurrences, order preserved: an element
 is kept iff no EARLIER element of the input is equal to it (`eqT` is "`Equals`
-answers known true"; that every comparison among wholly known mark-free values
-is decided is C01's `known_in_known_out`; transitivity of `Equals` is C03). -/
+answers known true").  What is asked of `Equals` — every comparison decided, and
+transitivity — is asked only of the MEMBERS of the list (`EqOn`), not of all values. -/
 theorem distinct_first_occurrences (E : Env) (e : Ty) (he : e.equals e = true) (vs : List Payload)
-    (hk : Payload.whollyKnownL vs = true)
-    (hd : Decided (vs.map (⟨e, ·⟩)))
-    (htr : ∀ a b c, eqT a b = true → eqT b c = true → eqT a c = true) :
+    (hk : Payload.whollyKnownL vs = true) (hE : EqOn (vs.map (⟨e, ·⟩))) :
     ∃ kept, distinctImpl E [⟨.list e, .seq vs⟩] (.list e) = .ok (mkList e kept) ∧
       kept.map (⟨e, ·⟩) = Spec.firstOccs eqT (vs.map (⟨e, ·⟩)) :=
-  distinctImpl_eq E e he vs hk hd htr
+  distinctImpl_eq_on E e he vs hk hE
+
+/-- **…and for a list of a plain element type nothing is assumed**: the members being
+well-formed, wholly known and mark-free, `Equals` IS the structural `RawEquals` (C03
+`equals_of_members`), which is decided and transitive, and `distinct` returns the first
+occurrences up to `RawEquals` — in payload vocabulary -/
+theorem distinct_plain (E : Env) (e : Ty) (hw : e.wf = true) (hp : e.plain = true) (vs : List Payload)
+    (hm : ∀ p ∈ vs, Payload.plainMember e p = true) :
+    distinctImpl E [⟨.list e, .seq vs⟩] (.list e) = .ok (mkList e (Spec.firstOccs (rawB e) vs)) ∧
+    EqOn (vs.map (⟨e, ·⟩)) :=
+  ⟨distinctImpl_plain E e hw hp vs hm, eqOn_plain hw hp vs hm⟩
 
 /-- **compact** returns the non-null, non-empty strings in their original order, as
 a list of strings -/
@@ -334,6 +365,40 @@ theorem setproduct_empty_and_arity (E : Env) (lists : List (Ty × List Payload))
         .ok ⟨.list (.tuple (lists.map (·.1))), .seq []⟩) ∧
     (args.length < 2 → Fails (setProductType E args)) :=
   ⟨setProductImpl_lists_empty E lists, setProductType_few E args⟩
+
+/-- **setproduct of known non-empty SETS**: `cty.SetVal` of the rows of the row-major
+Cartesian product of the members in iteration order — a set of tuples of the element
+types, which is also the type the `Type` callback predicts -/
+theorem setproduct_sets (E : Env) (sets : List SetArg) (h2 : 2 ≤ sets.length)
+    (hne : ∀ s ∈ sets, s.2.2 ≠ []) (he : ∀ s ∈ sets, s.1.equals s.1 = true)
+    (hk : ∀ s ∈ sets, Payload.whollyKnownL s.2.2 = true)
+    (hm : ∀ s ∈ sets, ∀ p ∈ s.2.2, p.containsMarked = false)
+    (hh : ∀ row ∈ productRows E sets, (E.hash (.tuple (sets.map (·.1))) row).isSome = true) :
+    setProductImpl E (setArgs3 sets) (.set (.tuple (sets.map (·.1)))) =
+      .ok (ofSetImpl (.tuple (sets.map (·.1)))
+        (SetImpl.fromList (setRules E (.tuple (sets.map (·.1)))) (productRows E sets))) ∧
+    setProductType E (setArgs3 sets) = .ok (.set (.tuple (sets.map (·.1)))) :=
+  ⟨setProductImpl_sets E sets hne he hk hm hh, setProductType_sets E sets h2⟩
+
+/-- **…against the reference**: for admitted members (plain tuple type, hash-coherent
+numbers, rows hashed as the hash model hashes them) the result is laid out under the
+representation invariant, its members are rows of the product, every row is
+represented up to `RawEquals`, and — the members of each argument being pairwise
+different, as the members of a set are — it has exactly `∏ lengths` members -/
+theorem setproduct_sets_reference (E : Env) (ns : List Num) (sets : List SetArg)
+    (hw : (Ty.tuple (sets.map (·.1))).wf = true) (hp : (Ty.tuple (sets.map (·.1))).plain = true)
+    (hc : HashCoherentNums ns = true)
+    (hne : ∀ s ∈ sets, s.2.2 ≠ []) (he : ∀ s ∈ sets, s.1.equals s.1 = true)
+    (hm : ∀ s ∈ sets, ∀ p ∈ s.2.2, p.member s.1 ns = true)
+    (hh : ∀ row ∈ productRows E sets, E.hashAgrees (.tuple (sets.map (·.1))) row) :
+    ∃ s : SetImpl Payload,
+      setProductImpl E (setArgs3 sets) (.set (.tuple (sets.map (·.1)))) = .ok (ofSetImpl (.tuple (sets.map (·.1))) s) ∧
+      SetImpl.Inv (setRules E (.tuple (sets.map (·.1)))) s ∧
+      (∀ m ∈ SetImpl.values s, m ∈ productRows E sets) ∧
+      (∀ row ∈ productRows E sets, Spec.memBy (rawB (.tuple (sets.map (·.1)))) (SetImpl.values s) row) ∧
+      ((∀ s ∈ sets, s.2.2.Pairwise (BothFalse s.1)) →
+        SetImpl.length s = (sets.map (·.2.2.length)).foldr (· * ·) 1) :=
+  setProduct_sets_spec E ns sets hw hp hc hne he hm hh
 
 /-! ## range -/
 
@@ -501,6 +566,33 @@ theorem contains_eq (E : Env) (e : Ty) (vs : List Payload) (x : Value) (retTy : 
     containsImpl E [⟨.list e, .seq []⟩, x] retTy = .ok (boolVal false) :=
   ⟨containsImpl_list E e vs x retTy hx hne hd, containsImpl_empty E e x retTy⟩
 
+/-- **contains on its whole domain** — any known non-null, non-empty list, tuple or set
+(`elems` is what the iterator yields: list members, tuple members each with its own
+type, set members in iteration order): `true` iff `Equals` answers true for one of them -/
+theorem contains_any_sequence (E : Env) (c x : Value) (retTy : Ty) (es : List Value) (n : Nat)
+    (hty : (isListTy c.ty || isTupleTy c.ty || isSetTy c.ty) = true) (hnull : c.isNull = false)
+    (hk : c.isKnown = true) (hx : x.isKnown = true) (hlen : lengthInt c = .ok n) (hn : n ≠ 0)
+    (hel : elems E c = .ok es) (hd : ∀ v ∈ es, ∃ bv, Value.equals x v = .ok (boolVal bv)) :
+    containsImpl E [c, x] retTy = .ok (boolVal (es.any fun v => eqT x v)) :=
+  containsImpl_elems E c x retTy es n hty hnull hk hx hlen hn hel hd
+
+/-- **…with nothing assumed about `Equals` for plain element types**: on a non-empty list
+or set of well-formed, wholly known, mark-free members and such a needle, `true` iff
+some member is `RawEquals` to the needle (for the set: whatever its iteration order) -/
+theorem contains_plain (E : Env) (e : Ty) (hw : e.wf = true) (hp : e.plain = true) (ids : List Int)
+    (vs : List Payload) (q : Payload) (retTy : Ty) (hne : vs ≠ [])
+    (hm : ∀ p ∈ vs, Payload.plainMember e p = true) (hq : Payload.plainMember e q = true) :
+    containsImpl E [⟨.list e, .seq vs⟩, ⟨e, q⟩] retTy = .ok (boolVal (vs.any fun p => rawB e q p)) ∧
+    containsImpl E [⟨.set e, .sset ids vs⟩, ⟨e, q⟩] retTy = .ok (boolVal (vs.any fun p => rawB e q p)) :=
+  containsImpl_plain E e hw hp ids vs q retTy hne hm hq
+
+/-- **contains fails outside its domain**: a first argument that is not a list, tuple or
+set, or a null one (inside the domain the three theorems above give the `ok` answer) -/
+theorem contains_fails_outside_domain (E : Env) (c x : Value) (retTy : Ty)
+    (h : (isListTy c.ty || isTupleTy c.ty || isSetTy c.ty) = false ∨ c.isNull = true) :
+    Fails (containsImpl E [c, x] retTy) :=
+  containsImpl_outside E c x retTy h
+
 /-- **coalesce** on known arguments: the first non-null one, converted to the
 unified type; an error when all are null -/
 theorem coalesce_first_non_null (E : Env) (retTy : Ty) (args : List Value) (hk : ∀ a ∈ args, a.isKnown = true) :
@@ -543,29 +635,217 @@ theorem setop_is_set_operation (E : Env) (ety : Ty) (k : SetOpKind) (ida idb : L
         (SetImpl.fromList (setRules E ety) (setIter E ety vb))))) :=
   setOpImpl_two E ety k ida idb va vb hs he hha hhb hka hkb
 
-/-- **set algebra = list-set algebra**: the members of the result represent exactly
-the union / intersection / difference / symmetric difference of the classes the
-members of the arguments represent — for `Equals`/`Hash` lawful on the element
-type (an equivalence relation that agrees with hashing: C03) -/
-theorem setop_members (E : Env) (ety : Ty) (k : SetOpKind) (ida idb : List Int) (va vb : List Payload)
-    (hR : (setRules E ety).Lawful)
-    (hs : ety.equals ety.stripOpt = true) (he : ety.equals ety = true)
-    (hha : ∀ p ∈ va, (E.hash ety p).isSome = true) (hhb : ∀ p ∈ vb, (E.hash ety p).isSome = true)
-    (hka : Payload.whollyKnownL va = true) (hkb : Payload.whollyKnownL vb = true) :
-    ∃ ids vs,
-      setOpImpl E k [⟨.set ety, .sset ida va⟩, ⟨.set ety, .sset idb vb⟩] (.set ety) = .ok ⟨.set ety, .sset ids vs⟩ ∧
-      ∀ y, Spec.memBy (setRules E ety).equiv vs y ↔
-        k.spec (Spec.memBy (setRules E ety).equiv va y) (Spec.memBy (setRules E ety).equiv vb y) :=
-  setOp_members E ety k ida idb va vb hR hs he hha hhb hka hkb
+/-! ### lawfulness of `setRules`, relative to a carrier
 
-/-- the result is laid out as a valid set value and holds no two equal members;
-its type is `set(ety)` -/
-theorem setop_result_wellformed (E : Env) (ety : Ty) (k : SetOpKind) (hR : (setRules E ety).Lawful)
-    (s1 s2 : SetImpl Payload) (hd : ety.equals .dyn = false) (sets : List (List Int × List Payload))
-    (hne : sets ≠ []) (hu : E.unify (sets.map fun _ => ety) = .ok (some ety)) :
-    SetImpl.Inv (setRules E ety) (k.run (setRules E ety) s1 s2) ∧
-    setOpType E (setArgs ety sets) = .ok (.set ety) :=
-  ⟨setOp_result_inv E ety k hR s1 s2, setOpType_same E ety hd sets hne hu⟩
+`Rules.Lawful` (the contract of `cty/set/rules.go` as C03 states it for a generic
+`Rules α`) asks the laws of EVERY `a : α`.  Over raw payloads that is false of
+cty's `setRules` — an unknown member is not `Equals`-true to itself, an ill-typed
+payload makes `Equals` panic — so a theorem assuming `(setRules E ety).Lawful`
+holds of nothing (audit C13 #1).  The laws are therefore asked on a CARRIER
+(`Rules.LawfulOn`, Lemmas/d13Carrier) and proved there (`setrules_lawful_on_members`). -/
+
+/-- **FULL STATEMENT (false)**: `setRules` meets the `cty/set` contract on all payloads. -/
+def SetRulesLawful : Prop := ∀ (E : Env) (ety : Ty), (setRules E ety).Lawful
+
+/-- an unknown string is not `Equivalent` to itself (`Equals` answers unknown, not true) -/
+theorem setRulesLawful_counterexample (E : Env) :
+    (setRules E .string).equiv (.unk .unref) (.unk .unref) = false := by
+  simp only [setRules]; decide
+
+theorem setRulesLawful_false : ¬ SetRulesLawful := fun h =>
+  absurd ((h {} .string).refl (.unk .unref)) (by rw [setRulesLawful_counterexample]; decide)
+
+/-- **…what holds: `setRules E ety` is lawful on admitted members.**  For a well-formed
+plain element type (no set, no capsule inside), `Equivalent` — "`Equals` answers
+known true" — is reflexive, symmetric and transitive, and equivalent members hash
+alike, on the members that are well-formed, wholly known, mark-free, whose numbers
+come from a hash-coherent list (`HashCoherentNums`, a decidable check; C03) and whose
+hash the environment answers as the hash model computes it. -/
+theorem setrules_lawful_on_members (E : Env) (ety : Ty) (ns : List Num) (hw : ety.wf = true)
+    (hp : ety.plain = true) (hc : HashCoherentNums ns = true) :
+    (setRules E ety).LawfulOn (fun p => p.member ety ns = true ∧ E.hashAgrees ety p) :=
+  setRules_lawfulOn E ety ns hw hp hc
+
+/-- on admitted members `Equivalent` is the structural `RawEquals` (`rawB`, the L2
+specification of C03) -/
+theorem setrules_equiv_is_rawEquals (E : Env) (ety : Ty) (ns : List Num) (hw : ety.wf = true)
+    (hp : ety.plain = true) (a b : Payload) (ha : a.member ety ns = true) (hb : b.member ety ns = true) :
+    (setRules E ety).equiv a b = rawB ety a b :=
+  setRules_equiv_eq E hw hp ha hb
+
+/-- `modelEnv` — the environment the correspondence op `std.callm` runs, whose hash is the
+hash model — answers the hash of every member the hash model can hash -/
+theorem modelEnv_hash_agrees (ety : Ty) (p : Payload) (h : (Value.hash ⟨ety, p⟩).isOk = true) :
+    modelEnv.hashAgrees ety p := modelEnv_hashAgrees ety p h
+
+/-- **set algebra = list-set algebra** (clause "set union / intersection / subtraction /
+symmetric difference return what the reference returns").  For two known sets of one
+well-formed plain element type without optional attributes whose members are admitted
+and hashed by the environment as the hash model hashes them, the call succeeds with a
+set of that type
+* laid out under the representation invariant of `cty/set` (ascending buckets, every
+  member in the bucket of its hash, no two `Equals` members),
+* whose members are, literally, members of the arguments,
+* in which EVERY admitted probe `y` (hashed or not) is represented iff it is
+  represented in the union / intersection / difference / symmetric difference of the
+  arguments. -/
+theorem setop_members (E : Env) (ety : Ty) (ns : List Num) (k : SetOpKind) (ida idb : List Int)
+    (va vb : List Payload)
+    (hw : ety.wf = true) (hp : ety.plain = true) (ho : ety.hasOpt = false) (hc : HashCoherentNums ns = true)
+    (hma : ∀ p ∈ va, p.member ety ns = true) (hmb : ∀ p ∈ vb, p.member ety ns = true)
+    (hha : ∀ p ∈ va, E.hashAgrees ety p) (hhb : ∀ p ∈ vb, E.hashAgrees ety p) :
+    ∃ s : SetImpl Payload,
+      setOpImpl E k [⟨.set ety, .sset ida va⟩, ⟨.set ety, .sset idb vb⟩] (.set ety) = .ok (ofSetImpl ety s) ∧
+      SetImpl.Inv (setRules E ety) s ∧
+      (∀ m ∈ SetImpl.values s, m ∈ va ∨ m ∈ vb) ∧
+      ∀ y, y.member ety ns = true →
+        (Spec.memBy (setRules E ety).equiv (SetImpl.values s) y ↔
+          k.spec (Spec.memBy (setRules E ety).equiv va y) (Spec.memBy (setRules E ety).equiv vb y)) :=
+  setOp_members_carrier E ety ns k ida idb va vb hw hp ho hc hma hmb hha hhb
+
+/-- **…for ANY number of arguments** (`setunion`, `setintersection`,
+`setsymmetricdifference` are variadic): the result represents the LEFT FOLD of the
+binary operation over the arguments' membership predicates
+(`k.specN eqv first rest y = rest.foldl (fun acc l => k.spec acc (y ∈ l)) (y ∈ first)`),
+under the same invariant, its members drawn from the arguments -/
+theorem setop_members_variadic (E : Env) (ety : Ty) (ns : List Num) (k : SetOpKind)
+    (first : List Int × List Payload) (rest : List (List Int × List Payload))
+    (hw : ety.wf = true) (hp : ety.plain = true) (ho : ety.hasOpt = false) (hc : HashCoherentNums ns = true)
+    (hm : ∀ st ∈ first :: rest, ∀ p ∈ st.2, p.member ety ns = true)
+    (hh : ∀ st ∈ first :: rest, ∀ p ∈ st.2, E.hashAgrees ety p) :
+    ∃ s : SetImpl Payload,
+      setOpImpl E k (setArgs ety (first :: rest)) (.set ety) = .ok (ofSetImpl ety s) ∧
+      SetImpl.Inv (setRules E ety) s ∧
+      (∀ m ∈ SetImpl.values s, ∃ st ∈ first :: rest, m ∈ st.2) ∧
+      ∀ y, y.member ety ns = true →
+        (Spec.memBy (setRules E ety).equiv (SetImpl.values s) y ↔
+          k.specN (setRules E ety).equiv first.2 (rest.map (·.2)) y) :=
+  setOp_members_n E ety ns k first rest hw hp ho hc hm hh
+
+/-- **…at the instance the correspondence runs** (`std.callm`): under `modelEnv` the only
+thing asked of the hash is that the hash model answers (a decidable check per member) -/
+theorem setop_members_model (ety : Ty) (ns : List Num) (k : SetOpKind) (ida idb : List Int)
+    (va vb : List Payload)
+    (hw : ety.wf = true) (hp : ety.plain = true) (ho : ety.hasOpt = false) (hc : HashCoherentNums ns = true)
+    (hma : ∀ p ∈ va, p.member ety ns = true) (hmb : ∀ p ∈ vb, p.member ety ns = true)
+    (hha : ∀ p ∈ va, (Value.hash ⟨ety, p⟩).isOk = true) (hhb : ∀ p ∈ vb, (Value.hash ⟨ety, p⟩).isOk = true) :
+    ∃ s : SetImpl Payload,
+      setOpImpl modelEnv k [⟨.set ety, .sset ida va⟩, ⟨.set ety, .sset idb vb⟩] (.set ety) = .ok (ofSetImpl ety s) ∧
+      SetImpl.Inv (setRules modelEnv ety) s ∧
+      (∀ m ∈ SetImpl.values s, m ∈ va ∨ m ∈ vb) ∧
+      ∀ y, y.member ety ns = true →
+        (Spec.memBy (rawB ety) (SetImpl.values s) y ↔
+          k.spec (Spec.memBy (rawB ety) va y) (Spec.memBy (rawB ety) vb y)) := by
+  obtain ⟨s, h1, h2, h3, h4⟩ := setOp_members_carrier modelEnv ety ns k ida idb va vb hw hp ho hc hma hmb
+    (fun p h => modelEnv_hashAgrees ety p (hha p h)) (fun p h => modelEnv_hashAgrees ety p (hhb p h))
+  refine ⟨s, h1, h2, h3, fun y hy => ?_⟩
+  have hms : ∀ m ∈ SetImpl.values s, m.member ety ns = true := fun m hm => by
+    rcases h3 m hm with h | h
+    · exact hma m h
+    · exact hmb m h
+  have conv : ∀ l : List Payload, (∀ z ∈ l, z.member ety ns = true) →
+      (Spec.memBy (setRules modelEnv ety).equiv l y ↔ Spec.memBy (rawB ety) l y) := by
+    intro l hl
+    constructor
+    · rintro ⟨z, hz, he⟩; exact ⟨z, hz, by rw [← setRules_equiv_eq modelEnv hw hp hy (hl z hz)]; exact he⟩
+    · rintro ⟨z, hz, he⟩; exact ⟨z, hz, by rw [setRules_equiv_eq modelEnv hw hp hy (hl z hz)]; exact he⟩
+  rw [← conv _ hms, h4 y hy]
+  exact k.spec_congr (conv va hma) (conv vb hmb)
+
+/-- **FULL STATEMENT (false of the code)**: the same for ALL wholly known well-formed
+members, without the hash-coherence side condition on their numbers. -/
+def SetAlgebraOnAllKnownMembers : Prop :=
+  ∀ (ety : Ty) (k : SetOpKind) (ida idb : List Int) (va vb : List Payload) (s : SetImpl Payload),
+    ety.wf = true → ety.plain = true → ety.hasOpt = false →
+    (∀ p ∈ va ++ vb, p.shaped ety = true ∧ p.whollyKnown = true ∧ p.containsMarked = false ∧
+      (Value.hash ⟨ety, p⟩).isOk = true) →
+    setOpImpl modelEnv k [⟨.set ety, .sset ida va⟩, ⟨.set ety, .sset idb vb⟩] (.set ety) = .ok (ofSetImpl ety s) →
+    ∀ y ∈ va ++ vb, (Spec.memBy (setRules modelEnv ety).equiv (SetImpl.values s) y ↔
+      k.spec (Spec.memBy (setRules modelEnv ety).equiv va y) (Spec.memBy (setRules modelEnv ety).equiv vb y))
+
+/-- witness (replayed on /repo: `stdlib.SetIntersection(SetVal{float64 3.9477794105},
+SetVal{parse "3.9477794105"})` is the empty set although the two numbers are `Equals`):
+the two members are `Equivalent` but live in different hash buckets, so `Has` misses.
+Root cause: the C03 hash-coherence finding (`C03.hash_incoherent_counterexample`). -/
+theorem setAlgebraOnAllKnownMembers_counterexample :
+    setOpImpl modelEnv .intersection
+      [⟨.set .number, .sset [1243578146] [.n C03.w4f]⟩, ⟨.set .number, .sset [1459007788] [.n C03.w4p]⟩]
+      (.set .number) = .ok (ofSetImpl .number ⟨[]⟩) ∧
+    (setRules modelEnv .number).equiv (.n C03.w4f) (.n C03.w4p) = true ∧
+    (setRules modelEnv .number).equiv (.n C03.w4f) (.n C03.w4f) = true ∧
+    (Value.hash ⟨.number, .n C03.w4f⟩).isOk = true ∧ (Value.hash ⟨.number, .n C03.w4p⟩).isOk = true := by
+  decide +kernel
+
+theorem setAlgebraOnAllKnownMembers_false : ¬ SetAlgebraOnAllKnownMembers := by
+  intro h
+  obtain ⟨h1, h2, h2', h3, h4⟩ := setAlgebraOnAllKnownMembers_counterexample
+  have hiff := h .number .intersection [1243578146] [1459007788] [.n C03.w4f] [.n C03.w4p] ⟨[]⟩ rfl rfl rfl
+    (by
+      intro p hp
+      simp only [List.cons_append, List.nil_append, List.mem_cons, List.not_mem_nil, or_false] at hp
+      rcases hp with rfl | rfl
+      · exact ⟨rfl, rfl, rfl, h3⟩
+      · exact ⟨rfl, rfl, rfl, h4⟩)
+    h1 (.n C03.w4f) (by simp)
+  have hr : SetOpKind.intersection.spec
+      (Spec.memBy (setRules modelEnv .number).equiv [.n C03.w4f] (.n C03.w4f))
+      (Spec.memBy (setRules modelEnv .number).equiv [.n C03.w4p] (.n C03.w4f)) :=
+    ⟨⟨.n C03.w4f, by simp, h2'⟩, ⟨.n C03.w4p, by simp, h2⟩⟩
+  obtain ⟨z, hz, _⟩ := hiff.mpr hr
+  simp [SetImpl.values] at hz
+
+/-- **sethaselement = membership** (clause "set membership"): for a known set of
+admitted members filed under their hashes (the layout `cty.SetVal` and the set
+algebra produce — `setop_result_is_filed`) and an admitted needle of the element
+type, the answer is `true` iff some member is `RawEquals` to the needle. -/
+theorem sethaselement_membership (E : Env) (ety : Ty) (ns : List Num) (hw : ety.wf = true) (hp : ety.plain = true)
+    (hc : HashCoherentNums ns = true) (ids : List Int) (vs : List Payload) (q : Payload) (retTy : Ty)
+    (hf : FiledUnder E ety ids vs)
+    (hm : ∀ p ∈ vs, p.member ety ns = true) (hh : ∀ p ∈ vs, E.hashAgrees ety p)
+    (hq : q.member ety ns = true) (hhq : E.hashAgrees ety q) :
+    setHasElementImpl E [⟨.set ety, .sset ids vs⟩, ⟨ety, q⟩] retTy =
+      .ok (boolVal (vs.any fun m => rawB ety q m)) :=
+  setHasElementImpl_member E ety ns hw hp hc ids vs q retTy hf hm hh hq hhq
+
+/-- a set value flattened from a representation under the invariant files every member
+under its hash -/
+theorem setop_result_is_filed (E : Env) (ety : Ty) (s : SetImpl Payload) (hinv : SetImpl.Inv (setRules E ety) s)
+    (hs : ∀ m ∈ SetImpl.values s, (E.hash ety m).isSome = true) :
+    FiledUnder E ety (bucketIds s.buckets) (bucketVals s.buckets) ∧
+    ofSetImpl ety s = ⟨.set ety, .sset (bucketIds s.buckets) (bucketVals s.buckets)⟩ :=
+  ⟨filedUnder_ofSetImpl E ety s hinv hs, rfl⟩
+
+/-- **the set functions compose**: `sethaselement(setop(a, b), q)` is the union /
+intersection / difference / symmetric difference of what a plain `RawEquals` scan of
+the two member lists answers for `q`. -/
+theorem sethaselement_of_setop (E : Env) (ety : Ty) (ns : List Num) (k : SetOpKind) (ida idb : List Int)
+    (va vb : List Payload)
+    (hw : ety.wf = true) (hp : ety.plain = true) (ho : ety.hasOpt = false) (hc : HashCoherentNums ns = true)
+    (hma : ∀ p ∈ va, p.member ety ns = true) (hmb : ∀ p ∈ vb, p.member ety ns = true)
+    (hha : ∀ p ∈ va, E.hashAgrees ety p) (hhb : ∀ p ∈ vb, E.hashAgrees ety p)
+    (q : Payload) (hq : q.member ety ns = true) (hhq : E.hashAgrees ety q) (retTy : Ty) :
+    ∃ r b, setOpImpl E k [⟨.set ety, .sset ida va⟩, ⟨.set ety, .sset idb vb⟩] (.set ety) = .ok r ∧
+      setHasElementImpl E [r, ⟨ety, q⟩] retTy = .ok (boolVal b) ∧
+      (b = true ↔ k.spec ((va.any fun m => rawB ety q m) = true) ((vb.any fun m => rawB ety q m) = true)) :=
+  setHasElement_of_setOp E ety ns k ida idb va vb hw hp ho hc hma hmb hha hhb q hq hhq retTy
+
+/-- result type of the set algebra: `set(ety)` when all arguments are sets of `ety` —
+for any environment whose `UnifyUnsafe` answers `ety` for copies of `ety` (C09
+`unify_equal_types`), and outright for `modelEnv`, whose `unify` is the unification
+model (nesting depth of `ety` below its fuel, 48) -/
+theorem setop_result_wellformed (E : Env) (ety : Ty) (hd : ety.equals .dyn = false)
+    (sets : List (List Int × List Payload)) (hne : sets ≠ []) :
+    (E.unify (sets.map fun _ => ety) = .ok (some ety) → setOpType E (setArgs ety sets) = .ok (.set ety)) ∧
+    (ety.wf = true → ety.hasOpt = false → Unify.tyDepth ety < 48 →
+      setOpType modelEnv (setArgs ety sets) = .ok (.set ety)) := by
+  refine ⟨fun hu => setOpType_same E ety hd sets hne hu, fun hw ho hdp => ?_⟩
+  apply setOpType_same modelEnv ety hd sets hne
+  have : (sets.map fun _ => ety) = List.replicate sets.length ety := by
+    clear hne; induction sets with
+    | nil => rfl
+    | cons _ _ ih => simp [List.replicate_succ, ih]
+  rw [this]
+  exact modelEnv_unify_same ety sets.length (by cases sets <;> simp_all) hw ho hdp
 
 /-- **a dynamically-typed argument gives `cty.DynamicVal`** (the parameters declare
 `AllowDynamicType`, so `cty.DynamicVal` reaches the callbacks): `setOperationReturnType`
@@ -627,6 +907,66 @@ theorem index_type_rules (e : Ty) (ts : List Ty) (p : Payload) (key : Value) (x 
            | none => oob)) :=
   indexType_rules e ts p key x
 
+/-- **index(list, x) for ANY known number**: the member at position `i` when `x` is the
+whole number `i` with `0 ≤ i < len`; for a negative, fractional, out-of-`int`, infinite
+or out-of-range key the ordinary error "invalid index" — never a panic
+(`Spec.natIndex? x = some i` reads "`x` is the whole number `i`, `0 ≤ i ≤ maxInt`") -/
+theorem index_list_any_number (e : Ty) (vs : List Payload) (x : Num)
+    (hm : Payload.containsMarkedL vs = false) (retTy : Ty) :
+    indexImpl [⟨.list e, .seq vs⟩, numVal x] retTy =
+      match (Spec.natIndex? x).bind (vs[·]?) with
+      | some p => .ok ⟨e, p⟩
+      | none => .err "invalid index" :=
+  indexImpl_list_num e vs x hm retTy
+
+/-- **index(tuple, x)**: the member together with ITS type at position `i`; the same
+error everywhere else -/
+theorem index_tuple (ts : List Ty) (vs : List Payload) (x : Num) (hl : ts.length = vs.length)
+    (hm : Payload.containsMarkedL vs = false) (retTy : Ty) :
+    indexImpl [⟨.tuple ts, .seq vs⟩, numVal x] retTy =
+      match (Spec.natIndex? x).bind (fun i => (ts[i]?).bind fun t => (vs[i]?).map fun p => (⟨t, p⟩ : Value)) with
+      | some v => .ok v
+      | none => .err "invalid index" :=
+  indexImpl_tuple_num ts vs x hl hm retTy
+
+/-- **index(map, key)**: the element under the key when the map has the key, the error
+"invalid index" when it has not (unlike `Value.Index`, which answers null there: C02
+`index_map_missing_counterexample`) -/
+theorem index_map (e : Ty) (ks : List String) (vs : List Payload) (k : String)
+    (hm : Payload.containsMarkedL vs = false) (retTy : Ty) :
+    indexImpl [⟨.map e, .smap ks vs⟩, strVal k] retTy =
+      if ks.contains k then .ok ⟨e, (lookupKey k ks vs).getD .null⟩ else .err "invalid index" :=
+  indexImpl_map_str e ks vs k hm retTy
+
+/-- **index fails outside its domain** already in the `Type` callback: a collection that
+is not a list, tuple or map; a key that is not a number for a list or tuple; a key that
+is not a string for a map -/
+theorem index_fails_outside_domain (c key : Value) :
+    (isListTy c.ty = false → isTupleTy c.ty = false → isMapTy c.ty = false → Fails (indexType [c, key])) ∧
+    (isListTy c.ty = true → key.ty.isNumber = false → key.ty.isDyn = false → Fails (indexType [c, key])) ∧
+    (isTupleTy c.ty = true → key.ty.isNumber = false → key.ty.isDyn = false → Fails (indexType [c, key])) ∧
+    (isMapTy c.ty = true → key.ty.isString = false → key.ty.isDyn = false → Fails (indexType [c, key])) :=
+  indexType_domain c key
+
+/-- **lookup in an object**: the attribute's value with the attribute's own type when
+the object type declares the attribute, otherwise the default converted to the result type -/
+theorem lookup_object (E : Env) (ns : List String) (ts : List Ty) (os : List Bool) (vs : List Payload)
+    (k : String) (d : Value) (retTy : Ty)
+    (h1 : ns.length = ts.length) (h2 : ns.length = os.length) (h3 : ns.length = vs.length)
+    (hk : Payload.whollyKnownL vs = true) (hm : ∀ p ∈ vs, p.isMarked = false) :
+    lookupImpl E [⟨.object ns ts os, .smap ns vs⟩, strVal k, d] retTy =
+      match Spec.attr? k ns ts vs with
+      | some v => .ok v
+      | none => (convertTo E d retTy).map (withMarkSets · [[]]) :=
+  lookupImpl_object E ns ts os vs k d retTy h1 h2 h3 hk hm
+
+/-- **lookup fails outside its domain** (in the `Type` callback): a first argument that is
+neither a map nor an object; a map whose default does not convert to the element type -/
+theorem lookup_fails_outside_domain (E : Env) (m key d : Value) :
+    (isMapTy m.ty = false → isObjectTy m.ty = false → Fails (lookupType E [m, key, d])) ∧
+    (∀ e, m.ty = .map e → (∃ c, convertTo E d e = .err c) → Fails (lookupType E [m, key, d])) :=
+  lookupType_outside E m key d
+
 /-- **slice(tuple, a, b)**: the tuple of the members at positions `a ≤ p < b`, typed
 by the same slice of the element types, which is the type the `Type` callback
 predicts; outside `0 ≤ a ≤ b ≤ len` both callbacks fail -/
@@ -662,6 +1002,134 @@ theorem merge_type (T : Ty) (hT : (isMapTy T || isObjectTy T) = true) (heq : T.e
     (hargs : ∀ a ∈ args, a.ty = T ∧ (a.unmark.isNull = true ∨ ∃ ks, elemKeys a.unmark = .ok ks)) :
     mergeType args = .ok T ∧ mergeType [] = .ok (.object [] [] []) :=
   ⟨mergeType_same T hT heq hnd args hne hargs, rfl⟩
+
+/-! ## domain and environment: what was left to a hypothesis -/
+
+/-- **coalesce of arguments of ONE type** under `modelEnv` (the environment `std.callm`
+runs): the `Type` callback answers that type — unification of equal types is computed,
+not assumed — and the result is the first non-null argument itself; an error when all
+are null.  (Arguments of DIFFERENT types are converted to the unified type by package
+`convert`: that reference is C08/C09's, `coalesce_first_non_null` says which argument.) -/
+theorem coalesce_same_type (t : Ty) (args : List Value) (hne : args ≠ [])
+    (hty : ∀ a ∈ args, a.ty = t) (hk : ∀ a ∈ args, a.isKnown = true)
+    (hw : t.wf = true) (ho : t.hasOpt = false) (hd : Unify.tyDepth t < 48) :
+    coalesceType modelEnv args = .ok t ∧
+    coalesceImpl modelEnv args t =
+      match args.find? (fun a => !a.isNull) with
+      | some a => .ok a
+      | none => .err "no non-null arguments" :=
+  coalesce_same_type_model t args hne hty hk hw ho hd
+
+/-- result type of `concat` for lists of one type under `modelEnv`, with no hypothesis
+about unification -/
+theorem concat_type_model (e : Ty) (ls : List (List Payload)) (hne : ls ≠ [])
+    (hw : e.wf = true) (ho : e.hasOpt = false) (hd : Unify.tyDepth (.list e) < 48) :
+    concatType modelEnv (sameLists e ls) = .ok (.list e) :=
+  concatType_lists_model e ls hne hw ho hd
+
+/-- **flatten fails outside its domain**: a wholly known argument that is not a list, set
+or tuple is refused by the `Type` callback (inside: `flatten_eq`, `flatten_empty`) -/
+theorem flatten_fails_outside_domain (E : Env) (arg : Value) (hwk : arg.whollyKnown = true)
+    (hs : isSeqTy arg.ty = false) : Fails (flattenType E [arg]) :=
+  flattenType_outside E arg hwk hs
+
+/-- **merge fails outside its domain**: an argument that is neither a map nor an object
+(nor of the dynamic pseudo-type, which defers the decision) is refused by the `Type`
+callback wherever it stands, the arguments before it being maps or objects — null,
+unknown or readable (inside the domain: `merge_map`, `merge_object`, `merge_type`) -/
+theorem merge_fails_outside_domain (pre : List Value) (bad : Value) (rest : List Value)
+    (hp : ∀ a ∈ pre, a.ty.equals .dyn = false ∧ (isMapTy a.ty || isObjectTy a.ty) = true ∧
+      (a.unmark.isNull = true ∨ a.unmark.isKnown = false ∨ ∃ ks, elemKeys a.unmark = .ok ks))
+    (hb : notMapOrObject bad = true) :
+    Fails (mergeType (pre ++ bad :: rest)) :=
+  mergeType_outside pre bad rest hp hb
+
+/-- **zipmap rejects a null key** (with `zipmap_domain_and_type`: for a list of values the
+call fails exactly when the lengths differ or some key is null — `zipmap_list` is the
+`ok` answer for string keys of the same length) -/
+theorem zipmap_null_key_rejected (E : Env) (e : Ty) (pre : List String) (post : List Payload) (vs : List Payload)
+    (hpost : ∀ p ∈ post, isStrOrNull p = true)
+    (hl : pre.length + 1 + post.length = vs.length) (hlen : (vs.length : Int) ≤ maxInt) (retTy : Ty) :
+    Fails (zipmapImpl E [⟨.list .string, .seq (pre.map Payload.s ++ .null :: post)⟩, ⟨.list e, .seq vs⟩] retTy) :=
+  zipmapImpl_null_key E e pre post vs hpost hl hlen retTy
+
+/-! ## length and hasindex against a reference; never a panic -/
+
+/-- **length** = number of members of a known list, tuple, map, or wholly known set (the
+statement the `wrappers` unfolding leaves to C02, in plain vocabulary) -/
+theorem length_reference (e : Ty) (ts : List Ty) (vs : List Payload) (ks : List String) (ids : List Int)
+    (retTy : Ty) :
+    lengthImpl [⟨.list e, .seq vs⟩] retTy = .ok (intVal vs.length) ∧
+    lengthImpl [⟨.tuple ts, .seq vs⟩] retTy = .ok (intVal ts.length) ∧
+    lengthImpl [⟨.map e, .smap ks vs⟩] retTy = .ok (intVal vs.length) ∧
+    (Payload.whollyKnownL vs = true → lengthImpl [⟨.set e, .sset ids vs⟩] retTy = .ok (intVal vs.length)) :=
+  lengthImpl_reference e ts vs ks ids retTy
+
+/-- **hasindex** through the whole call protocol: for a list or tuple and ANY known number
+`true` iff the number is a whole position inside the sequence; for a map and a string
+`true` iff the map has the key -/
+theorem hasindex_reference (e : Ty) (ts : List Ty) (vs : List Payload) (ks : List String) (x : Num) (k : String)
+    (hm : Payload.containsMarkedL vs = false) :
+    (Fn.call hasIndexSpec hasIndexType hasIndexImpl [⟨.list e, .seq vs⟩, numVal x]).1 =
+      .ok (boolVal (match Spec.natIndex? x with | some i => decide (i < vs.length) | none => false)) ∧
+    (Fn.call hasIndexSpec hasIndexType hasIndexImpl [⟨.tuple ts, .seq vs⟩, numVal x]).1 =
+      .ok (boolVal (match Spec.natIndex? x with | some i => decide (i < ts.length) | none => false)) ∧
+    (Fn.call hasIndexSpec hasIndexType hasIndexImpl [⟨.map e, .smap ks vs⟩, strVal k]).1 =
+      .ok (boolVal (ks.contains k)) :=
+  hasIndex_call_reference e ts vs ks x k hm
+
+/-- the iteration hypotheses of `merge_map` / `merge_object` hold of every known unmarked
+map or object value -/
+theorem merge_arguments_iterable (E : Env) (e : Ty) (ns : List String) (ts : List Ty) (os : List Bool)
+    (ks : List String) (vs : List Payload) :
+    Iterable E ⟨.map e, .smap ks vs⟩ ∧ Iterable E ⟨.object ns ts os, .smap ks vs⟩ :=
+  iterable_map_object E e ns ts os ks vs
+
+/-- the homogeneity hypothesis of `merge_map` holds when every argument has the map type -/
+theorem merge_map_bindings_typed (E : Env) (e : Ty) (args : List Value) (hty : ∀ a ∈ args, a.ty = .map e) :
+    ∀ kv ∈ allBindings E args, kv.2.ty = e :=
+  allBindings_map_ty E e args hty
+
+/-- **keys, values and the set algebra fail outside their domains**: `keys` / `values` of a
+value that is neither a map nor an object; set functions on sets whose element types do
+not unify -/
+theorem keys_values_setop_fail_outside_domain (E : Env) (m : Value) (args : List Value) (etys : List Ty) :
+    (isMapTy m.ty = false → isObjectTy m.ty = false → Fails (keysType [m]) ∧ Fails (valuesType [m])) ∧
+    (setOpElemTypes args = .ok (some etys) → etys ≠ [] → E.unify etys = .ok none → Fails (setOpType E args)) :=
+  keys_values_setop_outside E m args etys
+
+/-- **never a Go panic**: `element`, `index`, `slice`, `chunklist` on a known mark-free list,
+whatever known numbers they are given (whole or fractional, of either sign, beyond
+`int`, infinite) -/
+theorem index_arithmetic_never_panics (E : Env) (e : Ty) (he : e.equals e = true) (vs : List Payload) (x y : Num)
+    (retTy : Ty) (hlen : (vs.length : Int) ≤ maxInt) (hm : Payload.containsMarkedL vs = false)
+    (hm' : ∀ p ∈ vs, p.isMarked = false) :
+    NoPanic (elementImpl [⟨.list e, .seq vs⟩, numVal x] retTy) ∧
+    NoPanic (indexImpl [⟨.list e, .seq vs⟩, numVal x] retTy) ∧
+    NoPanic (sliceImpl E [⟨.list e, .seq vs⟩, numVal x, numVal y] (.list e)) ∧
+    NoPanic (chunklistImpl E [⟨.list e, .seq vs⟩, numVal x] retTy) :=
+  index_arithmetic_no_panic E e he vs x y retTy hlen hm hm'
+
+/-- …`index` on tuples and maps and `lookup` on objects (the default's conversion being the
+environment's business) -/
+theorem index_lookup_never_panic (E : Env) (e : Ty) (ts : List Ty) (vs : List Payload) (ks ns : List String)
+    (os : List Bool) (x : Num) (k : String) (d : Value) (retTy : Ty)
+    (hl : ts.length = vs.length) (hm : Payload.containsMarkedL vs = false)
+    (hd : NoPanic (convertTo E d retTy)) :
+    NoPanic (indexImpl [⟨.tuple ts, .seq vs⟩, numVal x] retTy) ∧
+    NoPanic (indexImpl [⟨.map e, .smap ks vs⟩, strVal k] retTy) ∧
+    (ns.length = ts.length → ns.length = os.length → ns.length = vs.length →
+      Payload.whollyKnownL vs = true → (∀ p ∈ vs, p.isMarked = false) →
+      NoPanic (lookupImpl E [⟨.object ns ts os, .smap ns vs⟩, strVal k, d] retTy)) :=
+  index_lookup_no_panic E e ts vs ks ns os x k d retTy hl hm hd
+
+/-- …and `distinct`, `contains` on lists of a plain element type -/
+theorem equality_functions_never_panic (E : Env) (e : Ty) (hw : e.wf = true) (hp : e.plain = true)
+    (vs : List Payload) (q : Payload) (retTy : Ty)
+    (hm : ∀ p ∈ vs, Payload.plainMember e p = true) (hq : Payload.plainMember e q = true) :
+    NoPanic (distinctImpl E [⟨.list e, .seq vs⟩] (.list e)) ∧
+    NoPanic (containsImpl E [⟨.list e, .seq vs⟩, ⟨e, q⟩] retTy) :=
+  equality_functions_no_panic E e hw hp vs q retTy hm hq
 
 /-! ## Non-vacuity: the hypotheses above are satisfiable by non-trivial values -/
 
@@ -700,6 +1168,56 @@ example : (flatElem (.tuple [.list .string, .number]) (.seq [.seq [.s "a", .s "b
 example : Ty.conformErrs (.list .string) (.list .string) = 0 := by decide
 example : (⟨.set .number, .marked ["m"] (.sset [1, 2] [.n (Num.ofInt 1), .unk .unref])⟩ : Value).unmark.whollyKnown = false := by
   decide
+
+/-- the hypotheses of the set theorems hold together for a non-trivial instance: the
+sets {2, 3, 1} and {2, 5} of 64-bit integers under `modelEnv`; likewise sets of tuples -/
+example : ∃ s : SetImpl Payload,
+    setOpImpl modelEnv .symmetricDifference
+      [⟨.set .number, .sset [450215437, 1842515611, 2212294583]
+          [.n (Num.ofInt 2 64), .n (Num.ofInt 3 64), .n (Num.ofInt 1 64)]⟩,
+       ⟨.set .number, .sset [450215437, 2226203566] [.n (Num.ofInt 2 64), .n (Num.ofInt 5 64)]⟩]
+      (.set .number) = .ok (ofSetImpl .number s) ∧ SetImpl.Inv (setRules modelEnv .number) s :=
+  have ⟨s, h1, h2, _⟩ := setop_members_model .number
+    [Num.ofInt 1 64, Num.ofInt 2 64, Num.ofInt 3 64, Num.ofInt 5 64] .symmetricDifference
+    [450215437, 1842515611, 2212294583] [450215437, 2226203566]
+    [.n (Num.ofInt 2 64), .n (Num.ofInt 3 64), .n (Num.ofInt 1 64)] [.n (Num.ofInt 2 64), .n (Num.ofInt 5 64)]
+    rfl rfl rfl (by decide +kernel) (by decide +kernel) (by decide +kernel) (by decide +kernel) (by decide +kernel)
+  ⟨s, h1, h2⟩
+example : HashCoherentNums [Num.ofInt 1 64, Num.ofInt 2 64, .fin false 1 (-1) 53, .fin false 3 (-2) 512] = true := by
+  decide +kernel
+example : Payload.member (.tuple [.number, .string]) [Num.ofInt 1 64]
+    (.seq [.n (Num.ofInt 1 64), .s "a"]) = true ∧
+    (Value.hash ⟨.tuple [.number, .string], .seq [.n (Num.ofInt 1 64), .s "a"]⟩).isOk = true := by decide +kernel
+example : FiledUnder modelEnv .number [450215437, 2226203566] [.n (Num.ofInt 2 64), .n (Num.ofInt 5 64)] :=
+  .cons (by decide +kernel) (.cons (by decide +kernel) .nil)
+example : (setHasElementImpl modelEnv
+    [⟨.set .number, .sset [450215437, 2226203566] [.n (Num.ofInt 2 64), .n (Num.ofInt 5 64)]⟩,
+     ⟨.number, .n (Num.ofInt 5 64)⟩] .bool) = .ok (boolVal true) := by decide +kernel
+example : Spec.natIndex? (Num.ofInt 2 64) = some 2 ∧ Spec.natIndex? (Num.ofInt (-1) 64) = none ∧
+    Spec.natIndex? (.fin false 1 (-1) 53) = none ∧ Spec.natIndex? (.inf false) = none := by decide
+example : indexImpl [⟨.list .string, .seq [.s "a", .s "b", .s "c"]⟩, intVal 2] .string = .ok ⟨.string, .s "c"⟩ ∧
+    indexImpl [⟨.list .string, .seq [.s "a", .s "b", .s "c"]⟩, intVal (-1)] .string = .err "invalid index" := by
+  constructor <;> rfl
+example : Spec.attr? "b" ["a", "b"] [.string, .number] [.s "x", .n (Num.ofInt 1 64)] =
+    some ⟨.number, .n (Num.ofInt 1 64)⟩ := by decide
+example : Payload.plainMember (.tuple [.number, .string]) (.seq [.n (Num.ofInt 1 64), .s "a"]) = true := by decide
+example : Spec.firstOccs (rawB .string) [.s "a", .s "b", .s "a", .null, .null] = [.s "a", .s "b", .null] := by
+  simp [Spec.firstOccs, Spec.firstOccsFrom, rawB]
+example : notMapOrObject ⟨.list .string, .seq []⟩ = true ∧ notMapOrObject ⟨.map .string, .smap [] []⟩ = false := by decide
+example : Unify.tyDepth (.list (.tuple [.number, .string])) < 48 := by decide
+example : ∃ s : SetImpl Payload,
+    setProductImpl modelEnv (setArgs3 [(.string, [1829654686], [.s "a"]), (.number, [450215437], [.n (Num.ofInt 2 64)])])
+      (.set (.tuple [.string, .number])) = .ok (ofSetImpl (.tuple [.string, .number]) s) ∧ SetImpl.length s = 1 :=
+  have ⟨s, h1, _, _, _, h5⟩ := setproduct_sets_reference modelEnv [Num.ofInt 2 64]
+    [(.string, [1829654686], [.s "a"]), (.number, [450215437], [.n (Num.ofInt 2 64)])]
+    rfl rfl (by decide +kernel) (by decide) (by decide +kernel) (by decide +kernel)
+    (fun row hr => modelEnv_hashAgrees _ row
+      ((by decide +kernel : ∀ row ∈ productRows modelEnv
+        [(.string, [1829654686], [.s "a"]), (.number, [450215437], [.n (Num.ofInt 2 64)])],
+        (Value.hash ⟨.tuple [.string, .number], row⟩).isOk = true) row hr))
+  ⟨s, h1, h5 (by simp)⟩
+example : SetOpKind.union.specN (rawB .string) [.s "a"] [[.s "b"], [.s "c"]] (.s "c") := by
+  simp [SetOpKind.specN, SetOpKind.spec, Spec.memBy, rawB]
 
 end C13
 end CtyModel
